@@ -150,6 +150,7 @@ def tlc_eval(module, cfg, tag, env=None, timeout=900, xmx="6g"):
 
 
 _MIS = re.compile(r'^"MISMATCH@(\d+)@(.*)"$')
+_NOTE = re.compile(r'^"NOTE@(\d+)@(.*)"$')
 
 
 def tlc_trace_one(module, cfg, trace_path, tag, timeout=1800, xmx="4g", env=None):
@@ -169,9 +170,20 @@ def tlc_trace_one(module, cfg, trace_path, tag, timeout=1800, xmx="4g", env=None
         shutil.rmtree(meta, ignore_errors=True)
     out = _clean(p.stdout + p.stderr)
     mism = []
+    notes = []
     lines = out.splitlines()
     i = 0
     while i < len(lines):
+        mn = _NOTE.match(lines[i])
+        if mn:
+            j = i + 1
+            detail = []
+            while j < len(lines) and lines[j].strip() != '"ENDNOTE"':
+                detail.append(lines[j])
+                j += 1
+            notes.append((int(mn.group(1)), mn.group(2) + ": " + " ".join(x.strip() for x in detail)))
+            i = j + 1
+            continue
         m = _MIS.match(lines[i])
         if m:
             j = i + 1
@@ -194,7 +206,7 @@ def tlc_trace_one(module, cfg, trace_path, tag, timeout=1800, xmx="4g", env=None
         if not mism:
             raise ToolError("trace validation of %s did not complete (consumed %d of %d):\n%s"
                             % (trace_path, consumed, n, out[-4000:]))
-    return dict(ok=completed and consumed == n and not mism, consumed=consumed, n=n, mismatches=mism,
+    return dict(ok=completed and consumed == n and not mism, consumed=consumed, n=n, mismatches=mism, notes=notes,
                 out=out, wall=time.time() - t0)
 
 
